@@ -398,3 +398,31 @@ MANIFEST = {
     "text": "The slot accounting is an explicit state machine whose invariants are the property (0<=inUse<=N, at most N sessions negotiated or served, one release per session on every exit path, no ret() ever parks, reported load = 8*floor(clients/8) <= slots in use, full capacity after all sessions end); TLC checks it exhaustively for capacity 1-3 with 3-4 sessions and every overlap, including the data channel opening while runSession gives up. The model is bound to the code in both directions: behaviours printed by TLC drive the real proxy (real pion, real HTTP, real WebSocket dial), and the event log recorded through guarded hooks, together with the Clients field of the real poll requests and the real counter/channel length, must be a behaviour of the model that satisfies the invariants (trace validation by TLC).",
     "note": "Replays run in real time (5 s poll ticker, 20 s data channel timeout): quick 12 behaviours, thorough about 30 incl. capacity 9 with eight concurrent sessions (reported load 8). Exhaustive only for the model at capacities 1-3; the real code is sampled by the replayed behaviours. Found and repaired D11 (double release when the data channel opens while runSession times out or its answer fails).",
 }
+
+
+# --- extension parts built separately: task.Periodic and the proxy's NAT-type machine (spec/Periodic, spec/ProxyNAT),
+# --- see notes/ProxyNAT.md -----------------------------------------------------------------------------------------
+_run_core = run
+
+
+def run(chk, args):
+    import json as _json
+    only = set(args.only.split(",")) if args.only else None
+    if args.replay:
+        with open(args.replay) as fh:
+            rp = _json.load(fh)["replay"]
+        if isinstance(rp, dict) and rp.get("kind") in ("periodic", "nat", "nat-race"):
+            from checks import c16_nat
+            return c16_nat.replay(chk, rp)
+        return _run_core(chk, args)
+    ext = {"periodic", "nat"}
+    if only is None or only - ext:
+        _run_core(chk, args)
+    if only is None or only & ext:
+        from checks import c16_nat
+        if only is None or ext <= only:
+            c16_nat.run_parts(chk, args)
+        elif "periodic" in only:
+            c16_nat.run_periodic_part(chk, args)
+        else:
+            c16_nat.run_nat_part(chk, args)
